@@ -28,6 +28,7 @@ mod c08;
 mod c09;
 mod c10;
 mod c11;
+mod c12;
 mod conn;
 mod exec;
 mod handler;
@@ -125,6 +126,7 @@ fn main() {
         "C09" => c09::run(&ctx, evidence.as_ref()),
         "C10" => c10::run(&ctx, evidence.as_ref()),
         "C11" => c11::run(&ctx, evidence.as_ref()),
+        "C12" => c12::run(&ctx, evidence.as_ref()),
         "C15" => c15::run(&ctx, evidence.as_ref()),
         "C16" => c16::run(&ctx, evidence.as_ref()),
         "C17" => c17::run(&ctx, evidence.as_ref()),
